@@ -49,7 +49,7 @@ def cases(tier, rng):
         st = [{'len': rng.randint(1, 6), 'trials': rng.randint(1, 3), 'kind': rng.choice(['array', 'gen', 'cos2']),
                'delays': rng.choice([0, 1, 3])} for _ in range(n)]
         c = {'pol': rng.choice(qc.POLICIES), 'gs': rng.randint(1, n + 1), 'stims': st, 'fs': rng.choice(FS),
-             't0': rng.choice([0, 0, 40, 12.34]), 'seed': rng.randint(0, 50)}
+             't0': rng.choice([0, 0, 40, 12.34]), 'seed': rng.randint(0, 50), 'fill': rng.choice(['append', 'extend', 'mixed'])}
         ops, clock, paused = [], 0, False
         for _ in range(rng.randint(2, 12)):
             u = rng.random()
